@@ -590,6 +590,9 @@ func (env *Env) callSpec(n *ECall) Val {
 			env.e.emit(fmt.Sprintf("(assert (str.contains %s %s))", a.T, t)) // Trim returns a substring of its argument
 		}
 		return Val{T: t, Ty: tString}
+	case "trimPrefix":
+		a, b := arg(0), arg(1)
+		return Val{T: ite(sx("str.prefixof", b.T, a.T), sx("str.substr", a.T, sx("str.len", b.T), sx("-", sx("str.len", a.T), sx("str.len", b.T))), a.T), Ty: tString}
 	case "substr":
 		return Val{T: sx("str.substr", arg(0).T, arg(1).T, sx("-", arg(2).T, arg(1).T)), Ty: tString}
 	case "finite":
